@@ -32,8 +32,10 @@ DECIDING = ["schedules_run", "preemptions_taken", "thread_results_compared", "sh
             "cold_start_schedules", "double_preemption_grid_schedules"]
 FLOOR = {"quick": 1500, "thorough": 20000}
 EXHAUSTIVE_NOTE = {"quick": "every single-preemption schedule of pair (col_a, col_b), both directions (pair pal12_a, pal12_b: every third boundary)",
-                   "thorough": "every single-preemption schedule of 9 pairs, both directions; 40x40 double-preemption grid of 3 pairs"}
+                   "thorough": "every single-preemption schedule of all pairs, both directions (pairs with more than 9000 "
+                               "boundaries: every s-th boundary, see notes); 40x40 double-preemption grid of 5 pairs"}
 
+MAX_SINGLE = 9000
 PAIRS = [("col_a", "col_b"), ("pal12_a", "pal12_b"), ("col_a", "multi_a"), ("figure", "col_b"), ("pageby", "multi_b"),
          ("raising", "col_a"), ("bcol_a", "bcol_b"), ("paged_s8", "paged_s14"), ("blk_a", "col_b"),
          ("badcolor", "col_a"), ("multi_raising", "multi_b"), ("graded_s9", "graded_s92"),
@@ -319,6 +321,13 @@ def run_shard(desc, ctx):
                 for k in range(1, env.nb[names[me]] + 1):
                     jobs.append((me, k))
             ctx.count("call_boundaries_" + "+".join(names), 0)
+            # pairs of large documents have tens of thousands of boundaries: every s-th one, so that a pair costs
+            # at most MAX_SINGLE schedules (the note in the evidence says which pairs were thinned)
+            stride = max(1, -(-len(jobs) // MAX_SINGLE))
+            if stride > 1:
+                jobs = jobs[::stride]
+                if desc["lo"] == 0:
+                    ctx.notes.append(f"pair {'+'.join(names)}: every {stride}th of its call boundaries")
             for me, k in jobs[desc["lo"]::desc["step"]]:
                 run_schedule(ctx, env, names, {me: {k: 1 - me}}, me, "single preemption")
             if desc["lo"] == 0:
